@@ -85,12 +85,21 @@ def wiring_case(rng: random.Random, rec: dict) -> tuple[dict, str | None]:
     seen = {}
     sentinel = (object(), object(), object())
 
+    import inspect
+    defaults = {k: p.default for k, p in inspect.signature(scipy.optimize.fmin_l_bfgs_b).parameters.items()
+                if p.default is not inspect.Parameter.empty}
+
     def recorder(*a, **kw):
         bound = dict(zip(SIGNATURE, a))
         for k, v in kw.items():
             if k in bound:
                 bound["_dup"] = k
             bound[k] = v
+        for k in list(bound):      # a keyword bound to scipy's own default is the same call
+            if k in defaults and k not in rec["kw"] and (bound[k] is defaults[k] or (
+                    isinstance(bound[k], (int, float)) and not isinstance(defaults[k], type(None))
+                    and bound[k] == defaults[k])):
+                del bound[k]
         seen["calls"] = seen.get("calls", 0) + 1
         seen["bound"] = bound
         return sentinel
